@@ -12,6 +12,7 @@ import Hw.Topo.WFLemmas0
 import Hw.Topo.InsertLemmas
 import Hw.Topo.SetStagePre
 import Hw.Topo.SetStageShape
+import Hw.Topo.SetStageNested
 import Hw.Topo.RenderLemmas
 import Hw.Topo.RenderOf
 namespace Hw.Props.C01
@@ -143,6 +144,58 @@ example : (stage exIn).allowedC = 0x37 ∧ (stage exIn).allowedN = 3 ∧
      [2, 1, 0, 7, 7, 1, 1], [3, 2, 0, 1, 1, 1, 1], [4, 2, 0, 2, 2, 1, 1], [5, 2, 0, 4, 4, 1, 1], [10, 2, 1, 7, 7, 1, 1],
      [6, 1, 0, 0x30, 0x38, 2, 2], [7, 6, 0, 0, 8, 2, 2], [8, 6, 0, 0x10, 0x10, 2, 2], [9, 6, 0, 0x20, 0x20, 2, 2],
      [11, 6, 1, 0x30, 0x38, 2, 2]] := by decide +kernel
+/-! #### memory hierarchies of any depth (a NUMA node behind one or several memory-side caches)
+
+`MemBelow t m`: `m` is a memory child of `t`, or a memory child of a memory child of `t`, and so on.  The clauses above speak about a
+node and its direct children; these two state what every memory object inherits from the object its hierarchy is attached to, however
+deep it is nested — `remove_unused_sets` has to recurse into memory children for that (engines `topo-load` / `set-stage`: derived
+sources with disallowed PUs / NUMA nodes below kept memory-side caches, evidence counters `*nested_memory_and_disallowed_removed`). -/
+
+/-- WF clauses "memory-child-shares-cpuset" and "set-in-parent" along memory chains of any length: every memory object below `o`
+carries exactly the cpuset and complete_cpuset of `o`, and its nodeset / complete_nodeset lie inside those of `o` -/
+theorem C01_setstage_nested_memory_shares_cpuset (i : In) (h : PreSets i) :
+    AllN (fun o kids mem => ∀ m, MemBelow (.node o kids mem) m →
+      m.o.cpuset = o.cpuset ∧ m.o.ccpuset = o.ccpuset ∧ Sub m.o.nodeset o.nodeset ∧ Sub (m.o.cnodeset.getD 0) (o.cnodeset.getD 0))
+      (stage i).root :=
+  AllN.imp (fun _ _ _ hp m hb => ⟨(hp m hb).1, (hp m hb).2.1, (hp m hb).2.2.1, (hp m hb).2.2.2.1⟩) _ (stage_nested_memory i h)
+
+/-- WF clauses "pu-allowed" / "numa-allowed" / "memcache-nodeset" for nested memory objects: when INCLUDE_DISALLOWED is not set, a
+memory object at ANY depth below `o` has the (already clipped) cpuset of `o`, inside the allowed cpuset, and a nodeset inside the
+allowed nodeset: a disallowed NUMA node behind a memory-side cache ends with an empty nodeset (and is then unlinked by `remove_empty`),
+and no disallowed PU survives in its locality -/
+theorem C01_setstage_nested_memory_within_allowed (i : In) (h : PreSets i) (hf : i.includeDisallowed = false) :
+    AllN (fun o kids mem => ∀ m, MemBelow (.node o kids mem) m →
+      m.o.cpuset = o.cpuset ∧ Sub m.o.cpuset (stage i).allowedC ∧ Sub m.o.nodeset (stage i).allowedN) (stage i).root :=
+  AllN.imp (fun _ _ _ hp m hb => ⟨(hp m hb).1, (hp m hb).2.2.2.2.1, (hp m hb).2.2.2.2.2⟩) _ (stage_nested_memory_allowed i h hf)
+
+/-! non-vacuity: two packages of four processors; package 0 has a NUMA node behind TWO nested memory-side caches (gp 20 > 21 > 22),
+package 1 a NUMA node behind one (gp 23 > 24); processors 3 and 7 and NUMA node 1 are not allowed.  The precondition holds; the stage
+gives every nested memory object the clipped cpuset of its package and empties the nodeset of the disallowed node at every depth.
+The shallow variant `removeUnusedShallow` (clip the memory children inline, do not recurse: the seeded change C01-r2) leaves the
+disallowed processors in gp 21, 22, 24 and the disallowed node in gp 24. -/
+def exMem (gp type os cpuset node : Nat) (mem : List ST) : ST := .node ⟨gp, type, os, cpuset, none, 1 <<< node, some (1 <<< node)⟩ [] mem
+def exNested : In := ⟨false, ⟨false, 0x77⟩, ⟨false, 1⟩,
+  .node ⟨1, tMACHINE, 0, 0xff, some 0xff, 3, some 3⟩
+    [ .node ⟨2, tPACKAGE, 0, 0x0f, none, 0, none⟩ [exPU 3 0, exPU 4 1, exPU 5 2, exPU 6 3]
+        [exMem 20 tMEMCACHE 0xffffffff 0x0f 0 [exMem 21 tMEMCACHE 0xffffffff 0x0f 0 [exMem 22 tNUMA 0 0x0f 0 []]]],
+      .node ⟨7, tPACKAGE, 1, 0xf0, none, 0, none⟩ [exPU 8 4, exPU 9 5, exPU 10 6, exPU 11 7]
+        [exMem 23 tMEMCACHE 0xffffffff 0xf0 1 [exMem 24 tNUMA 1 0xf0 1 []]] ] []⟩
+def exFmt (t : ST) : List (List Nat) :=
+  (rows (-1) false t).map (fun r => [r.2.2.gp, r.1.toNat, r.2.2.cpuset, r.2.2.ccpuset.getD 0, r.2.2.nodeset, r.2.2.cnodeset.getD 0])
+
+example : PreSets exNested := (preSets_iff exNested).1 (by decide +kernel)
+example : MemBelow (exMem 20 tMEMCACHE 0 0xf 0 [exMem 21 tMEMCACHE 0 0xf 0 [exMem 22 tNUMA 0 0xf 0 []]]) (exMem 22 tNUMA 0 0xf 0 []) :=
+  .deeper (c := exMem 21 tMEMCACHE 0 0xf 0 [exMem 22 tNUMA 0 0xf 0 []]) (List.mem_singleton.2 rfl) (.child (List.mem_singleton.2 rfl))
+example : (stage exNested).allowedC = 0x77 ∧ (stage exNested).allowedN = 1 ∧
+    exFmt (stage exNested).root =
+    [[1, 0, 0x77, 0xff, 1, 3],
+     [2, 1, 7, 0xf, 1, 1], [3, 2, 1, 1, 1, 1], [4, 2, 2, 2, 1, 1], [5, 2, 4, 4, 1, 1], [6, 2, 0, 8, 1, 1],
+     [20, 2, 7, 0xf, 1, 1], [21, 20, 7, 0xf, 1, 1], [22, 21, 7, 0xf, 1, 1],
+     [7, 1, 0x70, 0xf0, 0, 2], [8, 7, 0x10, 0x10, 0, 2], [9, 7, 0x20, 0x20, 0, 2], [10, 7, 0x40, 0x40, 0, 2], [11, 7, 0, 0x80, 0, 2],
+     [23, 7, 0x70, 0xf0, 0, 2], [24, 23, 0x70, 0xf0, 0, 2]] := by decide +kernel
+example : (exFmt (removeUnusedShallow 0x77 1 (fixupSets (propagate 0 (fixupRoot exNested.root))))).filter (fun r => r[0]! ≥ 20) =
+    [[20, 2, 7, 0xf, 1, 1], [21, 20, 0xf, 0xf, 1, 1], [22, 21, 0xf, 0xf, 1, 1], [23, 7, 0x70, 0xf0, 0, 2], [24, 23, 0xf0, 0xf0, 2, 2]] := by
+  decide +kernel
 end SetStage
 
 /-! ### links and levels of a loaded topology follow from the renderer equality -/
